@@ -844,6 +844,34 @@ func c8Shadowing(c *C, r *Rng) {
 		return
 	}
 	c.Cover("shadowing")
+	// a name bound by a tag to nothing (an omitted macro parameter, an argument or with-value that is undefined or nil)
+	// still shadows the context key and the global - directly and inside nested with/for regions of the binding construct
+	inner := "[{{ v.Name }}{% with q=1 %}{{ v.Name }}{% for i in one %}{{ v.Name }}{{ v }}{% endfor %}{% endwith %}{% if v %}T{% endif %}]"
+	src2 := r.Pick([]string{
+		"{% macro m(v) %}" + inner + "{% endmacro %}{{ m() }}",
+		"{% macro m(a, v) %}" + inner + "{% endmacro %}{{ m(1) }}",
+		"{% macro m(v) %}" + inner + "{% endmacro %}{{ m(nothing) }}",
+		"{% macro m(v) %}" + inner + "{% endmacro %}{{ m(nilval) }}",
+		"{% macro m(v) %}{% for j in one %}" + inner + "{% endfor %}{% endmacro %}{% with w=2 %}{{ m() }}{% endwith %}",
+		"{% with v=nothing %}" + inner + "{% endwith %}",
+		"{% with v=nilval %}" + inner + "{% endwith %}",
+		"{% for v in nils %}" + inner + "{% endfor %}",
+	})
+	ctx["one"] = []int{1}
+	ctx["nilval"] = nil
+	ctx["nils"] = []any{nil}
+	tpl2, err := set.FromString(src2)
+	if err != nil {
+		c.Fail("compile-error", D{"source": src2, "error": err.Error()})
+		return
+	}
+	out2, xerr2 := tpl2.Execute(ctx)
+	c.Eval(1)
+	if xerr2 != nil || out2 != "[]" {
+		c.Fail("shadowing", D{"source": src2, "in_globals": inG, "in_context": inC, "output": out2, "expected": "[]", "error": errStr(xerr2), "why": "a name bound to nothing by a tag still shadows context and globals"})
+		return
+	}
+	c.Cover("shadowing_by_empty_binding")
 }
 
 func init() {
